@@ -1,6 +1,7 @@
 import Dreye.Driver.Parse
 import Dreye.Driver.Ops01
 import Dreye.Driver.Ops02
+import Dreye.Driver.Ops20
 namespace Dreye.Driver
-def allOps : List (String × Handler) := ops01 ++ ops02
+def allOps : List (String × Handler) := ops01 ++ ops02 ++ ops20
 end Dreye.Driver
